@@ -758,6 +758,6 @@ ASSUMPTIONS = [
     "TriX documents of the suite name every graph (an unnamed TriX graph is stored under a new blank-node name: C06)",
     "which parser follows which label discipline (Parse/Model.v disc_of) is read off the code and re-established by every run of this check",
 ]
-RULE = ("a case is an initial store content plus 1-4 documents (syntax, target graph, statements over 1-3 labels out of 5, "
+RULE = ("a case is an initial store content plus 1-4 documents (syntax, target graph, statements over 1-4 labels out of 7 - all-digit labels included, Turtle/TriG labels optionally written as anonymous [...] nodes, RDF/XML with inner xml:base, optionally random.seed(k) before every call, "
         "labels shaped like rdflib ids included) parsed one after the other; distinct by full content; non-trivial when a label "
         "is shared by two calls or equals the id of a blank node already in the store")
